@@ -53,7 +53,11 @@ def gen_case(rng, tier, idx):
             xs.append(None if rng.random() < 0.15 else rng.choice([level, level + 1, level - 1, level + rng.randint(-4, 4) / 4]))
             ys.append(None if rng.random() < 0.1 else rng.choice([level, level + rng.randint(-3, 3) / 2]))
         absent = [i for i in range(n) if rng.random() < 0.05]
-        return {"kind": kind, "xs": xs, "ys": ys, "absent": absent, "k": rng.choice([-3, 1, 4, 10])}
+        boolean = rng.random() < 0.1
+        if boolean:
+            # a column of flags (what pattern wrappers and STDEVTHRES write): False is a reading like any other, not "no reading"
+            xs = [rng.choice([True, False, False, None]) for _ in range(n)]
+        return {"kind": kind, "xs": xs, "ys": ys, "absent": absent, "k": rng.choice([-3, 1, 4, 10]), "boolean": boolean}
     if kind == "geometry":
         cs = []
         for _ in range(30):
@@ -105,6 +109,22 @@ def run_movement(case, stats, V):
            ("mean_falling", movement.mean_falling, R.mean_falling), ("highest", movement.highest, R.highest), ("lowest", movement.lowest, R.lowest),
            ("highestbar", movement.highestbar, R.highestbar), ("lowestbar", movement.lowestbar, R.lowestbar), ("value_range", movement.value_range, R.value_range)]
     two = [("crossover", movement.crossover, R.crossover), ("crossunder", movement.crossunder, R.crossunder), ("cross", movement.cross, R.cross)]
+    if case.get("boolean"):
+        stats["boolean_columns"] = stats.get("boolean_columns", 0) + 1
+        for i in list(range(1, n)) + [None]:
+            ii = n - 1 if i is None else i
+            ikw = {} if i is None else {"index": i}
+            if ii < 1:
+                continue
+            for ln in LENGTHS:
+                for name, f, ref in (("highest", movement.highest, R.highest), ("lowest", movement.lowest, R.lowest)):
+                    got = f(cs, "A", ln, **ikw)
+                    w_ = [v for v in X[max(0, ii - ln):ii + 1] if v is not None]  # the current candle and the `length` before it
+                    adm = {(max(w_) if name == "highest" else min(w_)) if w_ else None}
+                    stats["movement_evaluations"] = stats.get("movement_evaluations", 0) + 1
+                    if not any(got is w or (got == w and type(got) is type(w)) for w in adm):
+                        V("reference-predicate", f"C17|{name}|boolean-column", f"{name}(A, length={ln}) at {i} of {n} on a column of flags: got {got!r}, documented {sorted(adm, key=repr)}; window {X[max(0, ii - ln - 1):ii + 1]}")
+        return any(v is None for v in X)
     for i in list(range(1, n)) + [None]:
         ii = n - 1 if i is None else i
         ikw = {} if i is None else {"index": i}
